@@ -13,12 +13,23 @@ Open Scope Z_scope.
    exactly the expression the derivation denotes. *)
 Theorem C13_builder_agrees_with_grammar : forall h e, wf_hc h = true ->
   new_evaluator (yield h) = Ok e -> denote h = Some e.
-Proof. exact builder_agrees_with_grammar. Qed.
+Proof. exact (builder_agrees_with_grammar cur_lenient_parens). Qed.
 Print Assumptions C13_builder_agrees_with_grammar.
+
+(* ... and, since repair baa1aee, it accepts EVERY derivation that has a boolean meaning (completeness) *)
+Theorem C13_builder_complete : forall h e, wf_hc h = true -> denote h = Some e -> new_evaluator (yield h) = Ok e.
+Proof. exact builder_complete_when_repaired. Qed.
+Print Assumptions C13_builder_complete.
+
+(* the same agreement held for the builder as found (which was not complete, see C13_builder_complete_refuted) *)
+Theorem C13_builder_agrees_with_grammar_as_found : forall h e, wf_hc h = true ->
+  new_evaluator_with false (yield h) = Ok e -> denote h = Some e.
+Proof. exact (builder_agrees_with_grammar false). Qed.
+Print Assumptions C13_builder_agrees_with_grammar_as_found.
 
 (* the model's recursion fuel is always enough *)
 Theorem C13_fuel_enough : forall ce, new_evaluator ce <> Err EFuel.
-Proof. exact build_fuel_enough. Qed.
+Proof. exact (build_fuel_enough cur_lenient_parens). Qed.
 Print Assumptions C13_fuel_enough.
 
 (* the recogniser used by the correspondence to find the derivation of a token list is sound *)
@@ -162,10 +173,10 @@ Proof.
 Qed.
 Print Assumptions C13_compare_text_refuted.
 
-(* the builder is not complete: "( ( ( ?a < 5 ) ) )" is a derivation with a boolean meaning, and is rejected
-   (as is every clause that follows a parenthesised clause inside parentheses: "( ( A ) and ( B ) ) or ( C )") *)
+(* the builder AS FOUND was not complete: "( ( ( ?a < 5 ) ) )" is a derivation with a boolean meaning and was
+   rejected (as was every clause following a parenthesised clause inside parentheses: "( ( A ) and ( B ) ) or ( C )") *)
 Theorem C13_builder_complete_refuted :
-  exists h e, wf_hc h = true /\ denote h = Some e /\ new_evaluator (yield h) = Err EBuild.
+  exists h e, wf_hc h = true /\ denote h = Some e /\ new_evaluator_with false (yield h) = Err EBuild.
 Proof.
   exists (HParen (tK KLPar "(") (HParen (tK KLPar "(") (HParen (tK KLPar "(")
             (HOperand (tB 1 "?a") (COp (tK KLt "<") (HOperand (tInt 5) CEmpty)))
